@@ -161,6 +161,13 @@ def suite_isim(tier: str, seed: int, mult: int) -> SuiteResult:
             if cen != np.packbits(maj.astype(np.uint8)).tobytes().hex():
                 res.failures.append({"signature": "C12:centroid-not-majority-on-narrow-dtype-sums",
                                      "what": f"n={n} dtype={ls.dtype}", "case": {"n": n, "ks": ks}})
+            # the count given as a NumPy scalar of the same narrow dtype (what the estimator passes when it re-imports a buffer)
+            if n <= np.iinfo(ls.dtype).max:
+                with np.errstate(all="ignore"):
+                    cen_s = np.asarray(sim.centroid_from_sum(ls, ls.dtype.type(n), pack=True)).tobytes().hex()
+                if cen_s != cen:
+                    res.failures.append({"signature": "C12:centroid-depends-on-the-dtype-of-the-count",
+                                         "what": f"n={n} as {ls.dtype}: {cen_s} vs {cen}", "case": {"n": n, "ks": ks}})
         # wrappers on fingerprint arrays, packed and unpacked, any feature count
         for _ in range((150 if tier == "quick" else 2000) * mult):
             F = rng.choice(list(range(1, 20)) + [63, 64, 65])
@@ -380,6 +387,12 @@ def suite_bits(tier: str, seed: int, mult: int) -> SuiteResult:
             majn = 2 * np.asarray(kk, dtype=np.uint64) >= nn
             if cn.tobytes() != np.packbits(majn.astype(np.uint8)).tobytes():
                 res.failures.append({"signature": "C12:centroid-not-majority-on-narrow-dtype-sums", "what": f"n={nn} dtype={lsn.dtype}",
+                                     "case": {"n": nn, "ks": kk}})
+            # the count as a NumPy scalar of the sums' dtype (the estimator passes buffer[-1] when it re-imports a summary)
+            with np.errstate(all="ignore"):
+                cs_ = sim.centroid_from_sum(lsn, lsn.dtype.type(nn), pack=True)
+            if cs_.tobytes() != cn.tobytes():
+                res.failures.append({"signature": "C12:centroid-depends-on-the-dtype-of-the-count", "what": f"n={nn} as {lsn.dtype}",
                                      "case": {"n": nn, "ks": kk}})
             if len(res.samples) < 2:
                 res.samples.append({"F": F, "rows": [row_hex(r) for r in rows], "dissim": mv[:80]})
